@@ -777,10 +777,21 @@ func vetted(doc []byte, sel string) (string, bool) {
 		if el := time.Since(t0); el > 300*time.Millisecond {
 			fmt.Fprintf(os.Stderr, "C07 generator: slow selector (%v, document of %d bytes): %s\n", el, len(doc), sel)
 		}
-		return o.s, time.Since(t0) < 30*time.Millisecond
+		// review H #7: the case set is a function of VERIF_SEED only – a pair is never dropped because of the
+		// wall clock (measured: 4 of 2235 pairs took 30..77 ms, scheduling noise; the structural bounds of the
+		// grammar keep the engines out of their quadratic cases). The deterministic cost bound is a guard
+		// for grammars to come; at present it drops nothing.
+		return o.s, selCost(doc, sel) <= 4000000
 	case <-time.After(60 * time.Second):
 		panic(fmt.Sprintf("C07 generator: dataParse hangs on selector %q (document of %d bytes): the grammar must not generate it", sel, len(doc)))
 	}
+}
+
+// selCost: a deterministic estimate of the work of one evaluation: document size times the number of
+// steps, predicates and function calls of the selector (each may visit every node once more)
+func selCost(doc []byte, sel string) int {
+	k := 1 + strings.Count(sel, "/") + 2*strings.Count(sel, "//") + 2*strings.Count(sel, "..") + 2*strings.Count(sel, "[") + strings.Count(sel, "(") + 3*strings.Count(sel, "::")
+	return len(doc) * k
 }
 
 func genCQ(tier string, rng *h.Rng, emit func(string)) {
